@@ -1082,6 +1082,13 @@ def rule_r10(prog, res) -> None:
         parts = None
         if isinstance(E, ast.Call) and (dotted(E.func) or "").split(".")[-1] in ("append", "concatenate", "hstack", "r_"):
             parts = list(E.args[0].elts) if len(E.args) == 1 and isinstance(E.args[0], (ast.Tuple, ast.List)) else list(E.args[:2])
+        if parts is None and isinstance(E, ast.Call) and (dotted(E.func) or "").split(".")[-1] in ("union1d", "unique", "sort", "sorted") and any(part(y) is not None for y in ast.walk(E)):
+            # a set union / a re-sorted merge of the selected left and right edges: equal to the splice only for a
+            # contiguous selection in ascending order — a strided selection keeps the edges of the bins that were left
+            # out (more bins than data), a reversed one is silently re-ordered instead of rejected
+            res.violation("C17.R10", gi, p.node or gi.node, f"the edges of a bin selection are `{unparse(E)[:70]}`, a sorted set of all selected left and right edges instead of the left edges followed by the last right edge: for a strided selection the result has the edges of the omitted bins as well (the binning no longer matches the selected data), a reversed selection is re-ordered instead of refused", key_extra="getitem-edges-set-union")
+            n += 1
+            continue
         if parts is None or len(parts) != 2:
             raise AnalysisError(f"C17.R10: the edges of a bin selection are not spliced from left / right edges in a recognised way ({unparse(E)[:80]})")
         got = [part(x) for x in parts]
